@@ -282,3 +282,30 @@ pub fn nfd(op: &str, a: &[&str]) -> String {
     }
     format!("{h} {accepted}")
 }
+
+/// regiontables <rid>: the constant tables of a region as the compiled code sees them (second, semantic reading of the
+/// tables the textual translator tools/rs2v/regiontables.py extracts): verif_tables() of a fresh configuration, the fresh
+/// plan's channel slots (default / join channels), and the frequency range check sampled at every multiple of 100 Hz
+/// (the resolution of every frequency field of LoRaWAN) up to 1.1 GHz, reported as maximal intervals.
+pub fn region_tables(a: &[&str]) -> String {
+    let r = int::<u32>(a[0]);
+    let cfg = Configuration::new(region_of(r));
+    let mut ranges: Vec<String> = vec![];
+    let mut start: Option<u32> = None;
+    for k in 0..=11_000_000u32 {
+        let f = k * 100;
+        let v = cfg.verif_frequency_valid(f);
+        match (v, start) {
+            (true, None) => start = Some(f),
+            (false, Some(s)) => {
+                ranges.push(format!("{}-{}", s, f - 100));
+                start = None;
+            }
+            _ => {}
+        }
+    }
+    if let Some(s) = start {
+        ranges.push(format!("{}-open", s));
+    }
+    format!("r={} {} range={} fresh={}", r, cfg.verif_tables(), ranges.join(","), cfg.verif_snapshot().replace(' ', ";"))
+}
